@@ -22,6 +22,7 @@
 //!   HEADER := the first three fields of the case joined by `|` (so that the output line is self-contained
 //!             input for the model driver)
 //!   EVENT  := tok LINE TOKEN | res RESULT | q 0|1 | end | fin quirks=NAME | PANIC | <op line of tracesink.rs>
+//!           | init Data|Plaintext|RawData KIND   (fragments: tokenizer_state_for_context_elem, after the set-up ops)
 //!   TOKEN  := D OPTSTR(name) OPTSTR(public) OPTSTR(system) 0|1(force_quirks)
 //!           | T s|e STR(name) 0|1(self_closing) 0|1(had_duplicate_attributes) N {STR(name) STR(value)}*N
 //!           | C STR | S STR | N (NullCharacterToken) | E (EOFToken) | X (ParseError)
@@ -172,6 +173,7 @@ fn run_case(line: &str) -> String {
         TokenizerOpts { exact_errors: fl[0] == 1, discard_bom: fl[1] == 1, profile: false, ..Default::default() };
     let sink = TraceSink::new(RcDom::default());
     let chunks: Vec<String> = f[3].split(';').map(parse_cps).collect();
+    let mut init_event: Option<String> = None;
     let tb: TB = if f[0].trim() == "F" {
         let ctx: Vec<&str> = f[2].trim().splitn(3, ':').collect();
         let nsv = match ctx[0] {
@@ -194,12 +196,23 @@ fn run_case(line: &str) -> String {
             None
         };
         let tb = TreeBuilder::new_for_fragment(sink, context_elem, form, tbopts);
-        tokopts.initial_state = Some(tb.tokenizer_state_for_context_elem(fl[6] == 1));
+        let st = tb.tokenizer_state_for_context_elem(fl[6] == 1);
+        init_event = Some(match st {
+            hs::State::Data => "init Data".to_string(),
+            hs::State::Plaintext => "init Plaintext".to_string(),
+            hs::State::RawData(k) => format!("init RawData {}", raw_kind(k)),
+            other => format!("init {:?}", other),
+        });
+        tokopts.initial_state = Some(st);
         tb
     } else {
         TreeBuilder::new(sink, tbopts)
     };
     let logging = Logging { inner: tb, log: RefCell::new(vec![]), drained: Cell::new(0) };
+    logging.drain();
+    if let Some(e) = init_event {
+        logging.log.borrow_mut().push(e);
+    }
     let tok = Tokenizer::new(logging, tokopts);
     let queue = BufferQueue::default();
     let r = catch_unwind(AssertUnwindSafe(|| {
